@@ -64,6 +64,8 @@ impl R {
     #[verifier::external_body] pub fn ln(self) -> (r: R) requires self.v() > 0real ensures r.v() == r_ln(self.v()) { unimplemented!() }
     #[verifier::external_body] pub fn log2(self) -> (r: R) ensures r.v() == r_log2(self.v()) { unimplemented!() }
     #[verifier::external_body] pub fn tanh(self) -> (r: R) ensures r.v() == r_tanh(self.v()) { unimplemented!() }
+    #[verifier::external_body] pub fn max(self, o: R) -> (r: R) ensures r.v() == (if self.v() >= o.v() { self.v() } else { o.v() }) { unimplemented!() }
+    #[verifier::external_body] pub fn min(self, o: R) -> (r: R) ensures r.v() == (if self.v() <= o.v() { self.v() } else { o.v() }) { unimplemented!() }
     #[verifier::external_body] pub fn clamp(self, lo: R, hi: R) -> (r: R) requires lo.v() <= hi.v() ensures r.v() == r_clamp(self.v(), lo.v(), hi.v()) { unimplemented!() }
 }
 
